@@ -142,7 +142,9 @@ Section Sim.
     exists p', dialog_run (max_rcpts c) p (fst (run accepts delivers c s m ls)) = Some p'.
   Proof.
     induction ls as [|l ls IH]; intros s m p S CL; cbn [run] in *.
-    - exists p. reflexivity.
+    - destruct m; cbn [fst]; [exists p; reflexivity|].
+      destruct S as (_ & _ & _ & W & NE). exists p. cbn. unfold dialog_step. rewrite W.
+      destruct (rcpts s); [congruence|reflexivity].
     - destruct (step accepts delivers c s m l) as [[[s1 m1] e1] q] eqn:Hs.
       destruct q.
       + cbn [fst] in *. destruct (step_sim _ _ _ _ _ _ _ _ S Hs CL) as (p' & R & _). eauto.
